@@ -10,10 +10,10 @@ Proof. exact pll126_nearest. Qed.
 Theorem C17_frequency_bytes : forall s, (s < 2 ^ 32)%N ->
   ((s / 16777216) mod 256 * 16777216 + (s / 65536) mod 256 * 65536 + (s / 256) mod 256 * 256 + s mod 256 = s)%N.
 Proof. exact be4_recompose. Qed.
-(* SX127x synthesiser word: the step at or below the request, under 61.04 Hz off, fits the three Frf registers *)
-Theorem C17_sx127x_frequency : forall f, (f <= 1023999999)%N ->
-  let s := pll_step_127 f in (s < 2 ^ 24)%N /\ (0 <= Z.of_N f * 524288 - Z.of_N s * 32000000 < 32000000)%Z.
-Proof. exact pll127_floor. Qed.
+(* SX127x synthesiser word: the nearest step, at most 30.52 Hz off, fits the three Frf registers *)
+Theorem C17_sx127x_frequency : forall f, (f <= 1020000000)%N ->
+  let s := pll_step_127 f in (s < 2 ^ 24)%N /\ (- 16000000 < Z.of_N f * 524288 - Z.of_N s * 32000000 <= 16000000)%Z.
+Proof. exact pll127_nearest. Qed.
 
 (* symbol-count timeouts *)
 Theorem C17_sx126x_timeout : forall n,
